@@ -520,11 +520,19 @@ class FnItem:
             raise Undecided("%s: number of loops changed: expected %d, found %d" % (
                 self.name, sp.get("n_loops", len(sp.get("loops", {}))), len(heads)))
         nbody = _norm_with_offsets(body)
-        for where, anchor, txt in sp.get("proofs", []):
+        for pr in sp.get("proofs", []):
+            where, anchor, txt = pr[0], pr[1], pr[2]
+            occ = pr[3] if len(pr) > 3 else None
+            optional = pr[4] if len(pr) > 4 else False
             offs = _find_anchor(nbody, anchor)
-            if len(offs) != 1:
+            if optional and not offs:
+                self.skipped_optional = getattr(self, "skipped_optional", []) + [anchor]
+                continue
+            if occ is None and len(offs) != 1:
                 raise Undecided("%s: proof anchor %r found %d times" % (self.name, anchor, len(offs)))
-            s, e = offs[0]
+            if occ is not None and occ >= len(offs):
+                raise Undecided("%s: proof anchor %r occurrence %d not found (%d found)" % (self.name, anchor, occ, len(offs)))
+            s, e = offs[occ or 0]
             inserts.append((e if where == "after" else s, "\n" + _indent(txt, 12) + "\n", "proof@" + anchor[:30]))
         inserts.sort()
         pos = 0
